@@ -78,11 +78,6 @@ func (c C12) Run(t *tape.Tape, opt core.RunOpt) (res core.Result) {
 	if strat == workload.StratMixed {
 		workload.DrawMixed(t, q)
 	}
-	z, err := workload.NewZoo(q, strat)
-	if err != nil {
-		res.Fatal = "cannot build the zoo root: " + err.Error()
-		return
-	}
 	ntasks := 2 + t.Draw(9)
 	if t.Bool(1, 2) {
 		ntasks = 2 + t.Draw(3)
@@ -99,7 +94,7 @@ func (c C12) Run(t *tape.Tape, opt core.RunOpt) (res core.Result) {
 	// by the schema).
 	noUnion := strat == workload.StratMixed && !(q.Raw["Dog"] && q.Raw["Bird"] && q.Raw["Keeper"] && q.Raw["Cell"])
 	for i := range pool {
-		pool[i] = workload.GenRequest(t, workload.ReqOpt{Strat: strat, MultiOp: !pathMode && t.Bool(1, 4), Introspection: !pathMode, NoUnion: noUnion,
+		pool[i] = workload.GenRequest(t, workload.ReqOpt{Strat: strat, MultiOp: !pathMode && t.Bool(1, 4), Introspection: !pathMode, NoUnion: noUnion, Ghost: true, Relay: t.Bool(1, 2), Pick: true, Nick: true,
 			VarInLiteral: strat != workload.StratReflect, ShuffleArgs: true, MaxDepth: 2 + t.Draw(3), PathMode: pathMode})
 	}
 	base := make([]string, len(pool))
@@ -111,7 +106,25 @@ func (c C12) Run(t *tape.Tape, opt core.RunOpt) (res core.Result) {
 				res.Fatal = err.Error()
 				return
 			}
-			b[k] = resolveLite(zb.Root, r, copyVars(r.Vars))
+			// alone, but under the scheduler (one task): a request that blocks on
+			// a lock it holds itself (a resolver issuing a nested request while
+			// the library holds a lock across the call) is then reported as the
+			// deadlock it is instead of hanging the worker
+			cfgB := cfg
+			cfgB.Fine = false
+			cfgB.Direct = nil
+			sb := sched.New(t, cfgB)
+			sb.Go("alone", func(tk *sched.Task) { b[k] = resolveLite(zb.Root, r, copyVars(r.Vars)) })
+			racesB := runScheduled(sb)
+			if sb.Deadlock != "" || sb.Runaway {
+				res.Evaluations = 1
+				res.Sig = core.Hash64("solo-deadlock", r.Src)
+				if opt.WantSample {
+					res.Sample = map[string]interface{}{"strategy": strat.String(), "request alone on a cold root": r.Src, "schedule": sb.Trace(60)}
+				}
+				schedVerdicts(&res, "C12", sb, racesB)
+				return
+			}
 		}
 		if b[0] != b[1] {
 			res.Inconclusive++
@@ -121,6 +134,13 @@ func (c C12) Run(t *tape.Tape, opt core.RunOpt) (res core.Result) {
 			return
 		}
 		base[i] = b[0]
+	}
+	// built after the baselines: nested requests (relay) go to the root of the
+	// zoo built last over the graph
+	z, err := workload.NewZoo(q, strat)
+	if err != nil {
+		res.Fatal = "cannot build the zoo root: " + err.Error()
+		return
 	}
 	type slot struct {
 		req  int
